@@ -260,6 +260,39 @@ func runC20(c *core.Case) {
 		if n1+n2 > 0 {
 			c.NonTrivial()
 		}
+		if r.P(0.0006) || (c.Tier == "thorough" && r.P(0.0006)) { // very long operands
+			n := veryLongLen(r)
+			v1, v2 := make([]int64, n), make([]int64, n/2+3)
+			for i := range v1 {
+				v1[i] = r.Range(-int64(n), int64(n))
+			}
+			for i := range v2 {
+				v2[i] = r.Range(-int64(n), int64(n))
+			}
+			c.Tag("very-long-lists")
+			if !setLaws(c, "[]int64(very long)", v1, v2[:64]) || !setLaws(c, "[]int64(very long, swapped)", v2[:64], v1) {
+				return
+			}
+			u, _ := func() (map[int64]bool, bool) {
+				m := map[int64]bool{}
+				for _, x := range common.Union(v1, v2) {
+					m[x] = true
+				}
+				return m, true
+			}()
+			for _, x := range v2[len(v2)-7:] {
+				if !u[x] {
+					c.Fail("helper-union", nil, "Union of lists with %d and %d elements lacks %d (one of the last elements of the second list)", len(v1), len(v2), x)
+					return
+				}
+			}
+			for _, x := range v1[len(v1)-7:] {
+				if !u[x] {
+					c.Fail("helper-union", nil, "Union of lists with %d and %d elements lacks %d (one of the last elements of the first list)", len(v1), len(v2), x)
+					return
+				}
+			}
+		}
 		if r.P(0.03) {
 			// long lists (above typical pooling thresholds) right after a call whose input contained NaN: NaN keys cannot be
 			// deleted from a map, so scratch state reused across calls would leak them. The NaN call itself is not judged.
